@@ -83,6 +83,10 @@ func (P *Program) VerifyFunc(fn *ssa.Function, ct *Contract, full bool, pathCap 
 			inames = append(inames, n)
 		}
 		sort.Strings(inames)
+		params := map[string]bool{}
+		for _, p := range fn.Params {
+			params[p.Name()] = true
+		}
 		for _, n := range inames {
 			st0 := st.clone()
 			for _, rq := range ct.IfaceReq[n] {
@@ -90,16 +94,26 @@ func (P *Program) VerifyFunc(fn *ssa.Function, ct *Contract, full bool, pathCap 
 					st0.add(t)
 				}
 			}
-			for i, rq := range ct.Requires {
-				t, ok := x.evalSpec(st0, rq.Expr, "pre")
+			// conjuncts about captured variables only are the closure's own invariant,
+			// established where it is made (capture obligations), not by the caller
+			var toProve []*Expr
+			var texts []string
+			for _, rq := range ct.Requires {
+				for _, cj := range splitConj(rq.Expr) {
+					if mentionsAny(cj, params) || fn.Parent() == nil {
+						toProve = append(toProve, cj)
+						texts = append(texts, cj.String())
+					} else if t, ok := x.evalSpec(st0, cj, "pre"); ok {
+						st0.add(t)
+					}
+				}
+			}
+			for i, cj := range toProve {
+				t, ok := x.evalSpec(st0, cj, "pre")
 				if !ok {
 					continue
 				}
-				label := rq.Label
-				if label == "" {
-					label = fmt.Sprint(i + 1)
-				}
-				x.oblige(st0, "refine", n+":"+label, t, fn.Pos(), "the preconditions of "+n+" imply this implementation's precondition: "+rq.Text)
+				x.oblige(st0, "refine", fmt.Sprintf("%s:%d", n, i+1), t, fn.Pos(), "the preconditions of "+n+" imply this implementation's precondition: "+texts[i])
 			}
 		}
 	}
@@ -254,7 +268,7 @@ func (env *Env) mcall(e *Expr) SV {
 	cenv.binds["result"] = specBinding{Val{T: r}, rt}
 	cenv.binds["result0"] = specBinding{Val{T: r}, rt}
 	for _, en := range ct.Ensures {
-		if len(en.Props) > 0 && x.prop != "" && !hasProp(en.Props, x.prop) {
+		if en.inactive(x.prop) {
 			continue // not proved in this run, so not assumed in it
 		}
 		t := cenv.eval(en.Expr)
@@ -285,4 +299,28 @@ func describeContract(ct *Contract) string {
 		fmt.Fprintf(&sb, "ensures %s; ", r.Text)
 	}
 	return sb.String()
+}
+
+
+// splitConj: the top-level conjuncts of a contract expression.
+func splitConj(e *Expr) []*Expr {
+	if e != nil && e.Kind == "binary" && e.Name == "&&" && len(e.Args) == 2 {
+		return append(splitConj(e.Args[0]), splitConj(e.Args[1])...)
+	}
+	return []*Expr{e}
+}
+
+func mentionsAny(e *Expr, names map[string]bool) bool {
+	if e == nil {
+		return false
+	}
+	if e.Kind == "ident" && names[e.Name] {
+		return true
+	}
+	for _, a := range e.Args {
+		if mentionsAny(a, names) {
+			return true
+		}
+	}
+	return false
 }
